@@ -15,6 +15,18 @@ CHECKS = {
          "families of models scaled by k = 1..64 from TLC-enumerated classes; the trace spec keeps the previous family member and checks the 1/k^2 laws, the fixed tan(beta) correction and the uncertainty floor as division-free inequalities in exact arithmetic",
          "constants C1, C2 in Trace_C07.tla are 10 x the maxima observed on the unchanged tree; corrections are measured against the sum of magnitudes of the terms",
          "TLA+ trace validation (Trace_C07.tla) with family state", "DESIGN 5/C07"),
+ "C08": ("model_checking",
+         "THDMModel.tla models the extraction of the CP-even mixing angle on the lattice of multiples of pi/16 (exact sign tables) for every beta, beta-alpha and eigenvector sign; AlphaOK holds for the atan2 extraction and is violated by the asin extraction of the unchanged tree (K1).  Trace_C08.tla validates models built from TLC-enumerated classes (sector of sin(beta-alpha) x tan(beta) class x Yukawa type x real/complex CKM x basis of origin): masses, angle (with cos >= 0), tan(beta), lambda_6/7, m12^2 reproduced; vector bosons, Goldstones at index 0, fermion masses = SM input; |Vu Vd^dagger| = |CKM|; rebuild in the other basis gives the same spectrum/quartics",
+         "tolerances: 1e-9 of the largest squared mass, angle conditioned by M2/(mH^2-mh^2), measured margins >= 100 on the repaired tree; magnitudes sampled",
+         "TLC model checking of THDMModel.tla + TLA+ trace validation (Trace_C08.tla, exact complex products in Dyadic.tla)", "DESIGN 5/C08"),
+ "C09": ("model_checking",
+         "Yukawa.tla holds Table 1 of arXiv:1607.06292 as symbols, rho_f per type and the read/ignore matrix, checked by TLC (ASSUME); Trace_C09.tla validates pairs of real models: type I/II/X/Y vs aligned with the table's zeta_f (all results and the twelve Yukawa getters, running on and off), aligned(zeta, Delta) vs general(Pi) with running off (one-loop, fermionic two-loop, Yukawas), and every (type, ignored parameter) pair of the matrix perturbed (bit-identical results)",
+         "relative 1e-9 with a floor of 1e-12 |a_mu| (observed <= 1e-11); magnitudes sampled",
+         "TLC-checked Yukawa.tla + TLA+ trace validation (Trace_C09.tla) of paired models", "DESIGN 5/C09"),
+ "C10": ("exploration",
+         "Trace_C10.tla keeps the reference / previous member of each family: SM-limit families (cos(beta-alpha) = 0, m_h = m_hSM = m over six values) must be independent of m within 1e-9 of one light-Higgs term; decoupling families (M = 1..31.6 TeV, fixed quartics, m_hSM = m_h) must shrink per component by 0.45 per factor sqrt(10) relative to the magnitude of the component's sub-parts",
+         "first decoupling step only asserted not to grow (valid large-tan(beta) points reach 0.72); K12 (bosonic 2L noise >= 10 TeV) is a known finding; scales computed by the driver",
+         "TLA+ trace validation (Trace_C10.tla) with family state", "DESIGN 5/C10"),
  "C13": ("model_checking",
          "SLHA.tla: an operational model of the reader (append lines, ordered passes over same-named blocks, scale filter, token conversion) is model-checked exhaustively against the denotation of a file (last assignment per block/key among the blocks read) and against the rewrite classes of the property, with wrong reader variants as non-vacuity checks; TLC-enumerated abstract files are rendered in several concrete layouts and in the normal form of their denotation, read by the real GM2_slha_io, and the recorded parameters/exception classes are validated by TLC (Trace_C13.tla); every documented key of the three formats is changed alone and must move exactly the documented parameter; whole-program runs of rewritten complete inputs must give the same result",
          "bounded files (MaxLen 3 quick / 5 thorough over a 19-symbol alphabet); matrix blocks only through whole-program runs; trusted: TLC, renderer (harness/lib/slha_render.py)",
@@ -39,6 +51,10 @@ CHECKS = {
          "Purity.tla: each API function as a process Begin -> (CopyModel -> MutateCopy)? -> Read -> End with read set (the caller's model) and write set (its own copy only); all interleavings of the threads' micro-steps are model-checked for NoConflict, SharedUnchanged, Pure and Deterministic; the variants 'function-static cache' and 'convert the caller's model in place and restore' violate them (non-vacuity).  TLC-sampled schedules (2..16 threads) are replayed on identical objects sequentially, in reverse thread order and concurrently from a barrier with random yields, on the plain build and under ThreadSanitizer; Trace_C19.tla requires the bit-exact hash of the complete public state of every argument to be unchanged by const calls, the result bits to be a function of (model, operation, state hash) across phases/threads/orders, agreement on a copy, and no ThreadSanitizer report",
          "race freedom is observed (TSan), not derived; interleavings are exhaustive only in the model (2 threads quick / 3 threads thorough, 2 operations each); trusted: state projection of the harness, TLC",
          "TLC model checking of Purity.tla (all interleavings) + TLA+ trace validation (Trace_C19.tla) of sequential / permuted / concurrent replays incl. ThreadSanitizer", "DESIGN 5/C19"),
+ "C20": ("exploration",
+         "Trace_C20.tla: CKM from Wolfenstein (inside / edge / outside / non-finite) and angle input: unitarity V V^dagger = 1 to 1e-14 as exact complex products, rejection outside the range; electroweak relations of gm2calc::SM as division-free identities (4 pi as a dyadic enclosure); running masses on geometric scale ladders: finite and positive, strictly decreasing, m(Q_k)^2 = m(Q_{k-1}) m(Q_{k+1}) (composition), boundary values, Lambda_QCD fallback; THDM lepton Yukawas with running on/off",
+         "K14 (mb running NaN for alpha_s >~ 0.18 at small m_b) is a known finding; the mt boundary value is only bracketed; scale <= 0 bypass not reachable through the API",
+         "TLA+ trace validation (Trace_C20.tla, Dyadic.tla)", "DESIGN 5/C20"),
  "C18": ("exploration",
          "random MSSM/THDM models from TLC-enumerated classes; every recorded call of the uncertainty API is validated by TLC against the documented definitions (floor, sums, overload agreement) in exact arithmetic",
          "sampling inside classes is not exhaustive; trusted: TLC, lossless double encoder, class generators",
